@@ -19,9 +19,10 @@ import (
 )
 
 type c11Call struct {
-	Op   string // put get getbytes getfile
+	Op   string // put putdiff get getbytes getfile
 	ID   int
 	Data []byte
+	R    int // putdiff: offset from which the second pass differs
 }
 
 type c11Scenario struct {
@@ -35,7 +36,7 @@ func (sc *c11Scenario) String() string {
 	for _, c := range sc.Clients {
 		var ops []string
 		for _, o := range c {
-			ops = append(ops, fmt.Sprintf("%s.%d.%s", o.Op, o.ID, common.Hex(o.Data)))
+			ops = append(ops, fmt.Sprintf("%s.%d.%s.%d", o.Op, o.ID, common.Hex(o.Data), o.R))
 		}
 		cl = append(cl, strings.Join(ops, ","))
 	}
@@ -66,9 +67,13 @@ func parseC11(s string) *c11Scenario {
 		var calls []c11Call
 		for _, o := range strings.Split(c, ",") {
 			f := strings.Split(o, ".")
-			if len(f) == 3 {
+			if len(f) >= 3 {
 				id, _ := strconv.Atoi(f[1])
-				calls = append(calls, c11Call{f[0], id, common.UnHex(f[2])})
+				r := 0
+				if len(f) >= 4 {
+					r, _ = strconv.Atoi(f[3])
+				}
+				calls = append(calls, c11Call{f[0], id, common.UnHex(f[2]), r})
 			}
 		}
 		sc.Clients = append(sc.Clients, calls)
@@ -109,13 +114,13 @@ func genC11(r *common.RNG) *c11Scenario {
 			id := r.Intn(nid)
 			switch r.Intn(5) {
 			case 0, 1:
-				calls = append(calls, c11Call{"put", id, c11Contents[common.Pick(r, perID[id])]})
+				calls = append(calls, c11Call{Op: "put", ID: id, Data: c11Contents[common.Pick(r, perID[id])]})
 			case 2:
-				calls = append(calls, c11Call{"getbytes", id, nil})
+				calls = append(calls, c11Call{Op: "getbytes", ID: id})
 			case 3:
-				calls = append(calls, c11Call{"getfile", id, nil})
+				calls = append(calls, c11Call{Op: "getfile", ID: id})
 			default:
-				calls = append(calls, c11Call{"get", id, nil})
+				calls = append(calls, c11Call{Op: "get", ID: id})
 			}
 		}
 		sc.Clients = append(sc.Clients, calls)
@@ -139,9 +144,32 @@ func genC11(r *common.RNG) *c11Scenario {
 // beforehand or not.
 func systematicC11() []*c11Scenario {
 	d, d2 := c11Contents[3], c11Contents[4]
-	callsA := []c11Call{{"put", 0, d}, {"put", 0, d2}, {"put", 0, []byte{}}}
-	callsB := []c11Call{{"getbytes", 0, nil}, {"getfile", 0, nil}, {"get", 0, nil}, {"put", 0, d}, {"put", 0, d2}, {"put", 1, d}}
+	callsA := []c11Call{{Op: "put", ID: 0, Data: d}, {Op: "put", ID: 0, Data: d2}, {Op: "put", ID: 0, Data: []byte{}}}
+	callsB := []c11Call{{Op: "getbytes", ID: 0}, {Op: "getfile", ID: 0}, {Op: "get", ID: 0}, {Op: "put", ID: 0, Data: d}, {Op: "put", ID: 0, Data: d2}, {Op: "put", ID: 1, Data: d}}
 	var out []*c11Scenario
+	// an entry whose output file is gone (as after Trim), a writer whose source changes on the
+	// second pass (or an honest one), and a reader of that entry at every boundary of the writer
+	for _, dd := range [][]byte{[]byte("a"), []byte("ab"), d, d2} {
+		for _, wr := range []c11Call{{Op: "putdiff", ID: 0, Data: dd, R: 0}, {Op: "putdiff", ID: 0, Data: dd, R: len(dd) - 1},
+			{Op: "putdiff", ID: 1, Data: dd, R: len(dd) / 2}, {Op: "put", ID: 0, Data: dd}} {
+			for _, rdc := range []c11Call{{Op: "getfile", ID: 1}, {Op: "getbytes", ID: 1}} {
+				for k := 0; k <= 14; k++ {
+					sc := &c11Scenario{Pre: map[string][]byte{"a:" + idHex(1): entryBytes(1, dd, 1700000000000000333)},
+						Clients: [][]c11Call{{wr}, {rdc, rdc}}}
+					for i := 0; i < k; i++ {
+						sc.Schedule = append(sc.Schedule, 0)
+					}
+					for i := 0; i < 60; i++ {
+						sc.Schedule = append(sc.Schedule, 1)
+					}
+					for i := 0; i < 60; i++ {
+						sc.Schedule = append(sc.Schedule, 0)
+					}
+					out = append(out, sc)
+				}
+			}
+		}
+	}
 	for _, pre := range []int{0, 1, 2} {
 		for _, a := range callsA {
 			for _, b := range callsB {
@@ -191,7 +219,7 @@ func (rn *c11Runner) runScenario(sc *c11Scenario) (corr, impl, oname string, tag
 	for _, c := range sc.Clients {
 		var ops []map[string]any
 		for _, o := range c {
-			ops = append(ops, map[string]any{"op": o.Op, "id": idHex(o.ID), "data": hex.EncodeToString(o.Data)})
+			ops = append(ops, map[string]any{"op": o.Op, "id": idHex(o.ID), "data": hex.EncodeToString(o.Data), "r": o.R})
 		}
 		clients = append(clients, ops)
 	}
@@ -215,15 +243,33 @@ func (rn *c11Runner) runScenario(sc *c11Scenario) (corr, impl, oname string, tag
 		stored[id][showBytes(d)+" "+outHex(d)+" "+fmt.Sprint(len(d))] = true
 	}
 	preStored := map[int]bool{}
+	var candidates [][]byte
+	for k2, d := range sc.Pre {
+		if k2[0] == 'd' {
+			candidates = append(candidates, d)
+		}
+	}
+	for _, c := range sc.Clients {
+		for _, o := range c {
+			if o.Op == "put" || o.Op == "putdiff" {
+				candidates = append(candidates, o.Data)
+			}
+		}
+	}
 	for k, v := range sc.Pre {
-		if k[0] == 'a' {
-			for i := 0; i < 4; i++ {
-				if idHex(i) == k[2:] {
-					for k2, d := range sc.Pre {
-						if k2[0] == 'd' && strings.Contains(string(v), k2[2:]) {
-							addStored(i, d)
-							preStored[i] = true
-						}
+		if k[0] != 'a' {
+			continue
+		}
+		for i := 0; i < 4; i++ {
+			if idHex(i) != k[2:] {
+				continue
+			}
+			// an entry present before the clients start: what it names was stored for that id earlier
+			for _, d := range candidates {
+				if strings.Contains(string(v), outHex(d)) {
+					addStored(i, d)
+					if _, ok := sc.Pre["d:"+outHex(d)]; ok {
+						preStored[i] = true
 					}
 				}
 			}
@@ -235,6 +281,9 @@ func (rn *c11Runner) runScenario(sc *c11Scenario) (corr, impl, oname string, tag
 			if o.Op == "put" {
 				addStored(o.ID, o.Data)
 				putIDs[o.ID] = true
+			}
+			if o.Op == "putdiff" {
+				addStored(o.ID, o.Data) // it fails, but the output may be completed by it only with these bytes
 			}
 		}
 	}
@@ -249,6 +298,13 @@ func (rn *c11Runner) runScenario(sc *c11Scenario) (corr, impl, oname string, tag
 			r := resp.Results[ci][oi]
 			if strings.HasPrefix(r, "PANIC") && impl == "" {
 				impl, oname = fmt.Sprintf("client %d call %d (%s id%d) panicked: %s", ci, oi, o.Op, o.ID, r), "no-panic"
+			}
+			if strings.HasSuffix(r, " BADFILE") {
+				if impl == "" {
+					impl, oname = fmt.Sprintf("client %d: GetFile(id%d) named a file that does not hold exactly the bytes with the reported OutputID and size: %s", ci, o.ID, r), "getfile-exact"
+				}
+				r = strings.TrimSuffix(r, " BADFILE")
+				resp.Results[ci][oi] = r
 			}
 			if o.Op == "put" && r == "PUTFAILED" && impl == "" {
 				impl, oname = fmt.Sprintf("client %d: Put(id%d) failed although nothing was injected", ci, o.ID), "put-failed"
@@ -334,7 +390,20 @@ func (rn *c11Runner) runScenario(sc *c11Scenario) (corr, impl, oname string, tag
 		sb.WriteString(" C")
 		np := 0
 		for _, o := range c {
-			if o.Op == "put" {
+			if o.Op == "putdiff" {
+				if hr := rn.m.hashReq(o.Data); hr != "" {
+					reqs = append(reqs, hr)
+				}
+				d2 := append([]byte{}, o.Data...)
+				for i := o.R; i < len(d2); i++ {
+					d2[i] ^= 0x55
+				}
+				ch := chunk32k(d2, len(d2)-1)
+				fmt.Fprintf(&sb, " putr %s 1 1 1 %s 1 %d", idHex(o.ID), rn.m.ref(o.Data), len(ch))
+				for _, x := range ch {
+					sb.WriteString(" " + rn.m.ref(x))
+				}
+			} else if o.Op == "put" {
 				if hr := rn.m.hashReq(o.Data); hr != "" {
 					reqs = append(reqs, hr)
 				}
